@@ -132,6 +132,8 @@ pub struct StepObs {
     pub pre_infos: Vec<Option<ConnInfo>>,
     pub post_infos: Vec<Option<ConnInfo>>,
     pub pre_life: Vec<Life>,
+    /// lines in flight per connection before the step
+    pub pre_held: Vec<Vec<String>>,
     pub post_life: Vec<Life>,
     /// lines received per slot during the step
     pub lines: Vec<Vec<String>>,
@@ -236,6 +238,69 @@ pub fn check_step(cfg: &SpecCfg, obs: &StepObs, focus: &Focus) -> (Vec<Finding>,
     };
     let actor_nick = info.nick.clone();
     let exp = match (&obs.act, &line) {
+        (Act::SendHeldFirst(_, l), _) => {
+            // the other connections' lines in flight are read before the actor's
+            // command takes effect on them (a KILL only posts a notice): expected
+            // result = those lines one after another, then the actor's line
+            let mut m = pre_m.clone();
+            let mut acc: Option<Exp> = None;
+            let mut chain: Vec<(usize, String)> = vec![];
+            for (j, ls) in obs.pre_held.iter().enumerate() {
+                if j != actor_slot {
+                    for hl in ls {
+                        chain.push((j, hl.clone()));
+                    }
+                }
+            }
+            chain.push((actor_slot, l.clone()));
+            for (j, hl) in chain {
+                let inf = match obs.pre_infos[j].as_ref() {
+                    Some(i) => i.clone(),
+                    None => return (out, false),
+                };
+                let a = Actor { nick: inf.nick.as_deref(), info: &inf };
+                let e = match spec::step(&m, cfg, &a, &hl) {
+                    Some(e) => e,
+                    None => return (out, false),
+                };
+                m = e.next.clone();
+                acc = Some(match acc {
+                    None => {
+                        let mut e0 = e;
+                        if j != actor_slot {
+                            // lines to that connection are "to" lines from the actor's view
+                            if let Some(n) = inf.nick.clone() {
+                                let own = std::mem::take(&mut e0.actor);
+                                e0.to.entry(n).or_default().extend(own);
+                            }
+                        }
+                        e0
+                    }
+                    Some(mut prev) => {
+                        let mut e1 = e;
+                        if j != actor_slot {
+                            if let Some(n) = inf.nick.clone() {
+                                let own = std::mem::take(&mut e1.actor);
+                                e1.to.entry(n).or_default().extend(own);
+                            }
+                        }
+                        prev.next = e1.next;
+                        for (k, v) in e1.to {
+                            prev.to.entry(k).or_default().extend(v);
+                        }
+                        prev.actor.extend(e1.actor);
+                        prev.closed.extend(e1.closed);
+                        prev.actor_closed = prev.actor_closed || e1.actor_closed;
+                        prev.actor_unchecked = prev.actor_unchecked || e1.actor_unchecked;
+                        prev
+                    }
+                });
+            }
+            match acc {
+                Some(e) => e,
+                None => return (out, false),
+            }
+        }
         (_, Some(l)) => {
             let actor = Actor {
                 nick: actor_nick.as_deref(),
